@@ -46,17 +46,17 @@ theorem announce_carries_datasets (p p' : Port) (s : InstState) (q q' : List Fwd
     (hm : p.st = .master) (h : p.sendAnnounce s q loose = .ok (p', outs, q')) :
     ∃ (m : Msg) (ab : AnnounceBody), outs = [.reset .announce (.exact (intervalNs p.cfg.announceLog)), .sendGeneral (encode m) false] ∧
       m.body = .announce ab ∧ viewOfAnnounce m.header ab = viewOf s ∧ m.header.src = p.id ∧ m.header.seq = p.annSeq := by
-  rcases sendAnnounce_shape p p' s q q' loose outs h with ⟨_, _, fw, _, ho⟩ | ⟨hn, _⟩
+  rcases sendAnnounce_shape p p' s q q' loose outs h with ⟨_, _, _, ho⟩ | ⟨hn, _⟩
   · have hb : ∃ ab, (msgAnnounce s p.id p.annSeq p.cfg.minorVersion).body = .announce ab := by
       unfold msgAnnounce; exact ⟨_, rfl⟩
     obtain ⟨ab, hab⟩ := hb
     have htp := time_properties_roundtrip s p.id p.annSeq p.cfg.minorVersion ab hab
-    refine ⟨p.announceMsg s fw, ab, ho, hab, ?_, rfl, rfl⟩
+    refine ⟨p.announceMsg s (p.announceFwd s q loose).1, ab, ho, hab, ?_, rfl, rfl⟩
     have hab2 := hab
     unfold msgAnnounce at hab2
     simp only [Body.announce.injEq] at hab2
     unfold viewOfAnnounce viewOf
-    have hh : (p.announceMsg s fw).header = (msgAnnounce s p.id p.annSeq p.cfg.minorVersion).header := rfl
+    have hh : (p.announceMsg s (p.announceFwd s q loose).1).header = (msgAnnounce s p.id p.annSeq p.cfg.minorVersion).header := rfl
     rw [hh, htp, ← hab2]
   · exact absurd hm hn
 
@@ -153,35 +153,28 @@ theorem decision_s1_datasets (p p' : Port) (s s' : InstState) (a : Ann) (e : Lis
   rw [← h3.2.1]; exact ⟨a1, a2⟩
 
 /-- **Slave, every later Announce of the parent**: received on the Slave port it updates the data sets to its
-contents with stepsRemoved + 1 (unless the path trace shows a loop — see C15) -/
+contents with stepsRemoved + 1 — unless its path trace shows a loop: then (C15) it changes nothing -/
 theorem parent_announce_datasets (p : Port) (s s1 : InstState) (m : Msg) (a : Ann) (loop : Bool)
     (hs : p.st.isSlave = true) (hp : a.hdr.src = s.parent.parentPort)
     (h : p.announceUpdate s m a = .ok (s1, loop)) :
-    viewOf s1 = parentView a ∧ s1.parent.parentPort = a.hdr.src := by
-  unfold Port.announceUpdate at h
-  rw [if_pos ⟨hs, hp⟩] at h
-  split at h
-  · cases h
-  · rename_i s2 hs2
-    obtain ⟨a1, a2, _⟩ := applyParent_view s s2 a hs2
-    split at h
-    · split at h
-      · split at h
-        · simp only [Except.ok.injEq, Prod.mk.injEq] at h; rw [← h.1]; exact ⟨a1, a2⟩
-        · split at h
-          · cases h
-          · simp only [Except.ok.injEq, Prod.mk.injEq] at h; rw [← h.1]; exact ⟨a1, a2⟩
-      · simp only [Except.ok.injEq, Prod.mk.injEq] at h; rw [← h.1]; exact ⟨a1, a2⟩
-    · simp only [Except.ok.injEq, Prod.mk.injEq] at h; rw [← h.1]; exact ⟨a1, a2⟩
+    (loop = false ∧ viewOf s1 = parentView a ∧ s1.parent.parentPort = a.hdr.src) ∨ (loop = true ∧ s1 = s) := by
+  rcases announceUpdate_cases p s s1 m a loop h with ⟨hn, _⟩ | ⟨_, _, _, e, hl⟩ | ⟨_, _, _, hl, s2, hap, hst⟩
+  · exact absurd ⟨hs, hp⟩ hn
+  · exact Or.inr ⟨hl, e⟩
+  · left
+    obtain ⟨a1, a2, _⟩ := applyParent_view s s2 a hap
+    rcases storePath_spec s2 s1 _ hst with ⟨_, e⟩ | ⟨t, _, e, _⟩
+    · rw [e]; exact ⟨hl, a1, a2⟩
+    · rw [e]; exact ⟨hl, a1, a2⟩
 
 /-- an Announce that is not from the parent, or arrives on a port that is not Slave, leaves the data sets alone -/
 theorem other_announce_keeps_datasets (p : Port) (s s1 : InstState) (m : Msg) (a : Ann) (loop : Bool)
     (hn : ¬ (p.st.isSlave = true ∧ a.hdr.src = s.parent.parentPort))
     (h : p.announceUpdate s m a = .ok (s1, loop)) : s1 = s ∧ loop = false := by
-  unfold Port.announceUpdate at h
-  rw [if_neg hn] at h
-  simp only [Except.ok.injEq, Prod.mk.injEq] at h
-  exact ⟨h.1.symm, h.2.symm⟩
+  rcases announceUpdate_cases p s s1 m a loop h with ⟨_, e1, e2⟩ | ⟨h1, h2, _⟩ | ⟨h1, h2, _⟩
+  · exact ⟨e1, e2⟩
+  · exact absurd ⟨h1, h2⟩ hn
+  · exact absurd ⟨h1, h2⟩ hn
 
 /-- **A change in the parent's Announce contents shows up in the next Announce sent**: once the Slave port `ps` has
 handled the parent's Announce `ab`, the Announce any Master port `pm` of the instance sends next carries exactly
@@ -189,6 +182,7 @@ those contents, stepsRemoved + 1. -/
 theorem parent_change_in_next_announce (ps ps' pm pm' : Port) (s s1 : InstState) (m : Msg) (ab : AnnounceBody)
     (o1 outs : List Out) (q q' : List FwdTlv) (loose : Bool)
     (hs : ps.st.isSlave = true) (hp : m.header.src = s.parent.parentPort)
+    (hnl : loopsBack s (pathTlvOf s m) = false)
     (h1 : ps.handleAnnounce s m ab = .ok (ps', s1, o1))
     (hm : pm.st = .master) (h2 : pm.sendAnnounce s1 q loose = .ok (pm', outs, q')) :
     ∃ (m2 : Msg) (ab2 : AnnounceBody), outs = [.reset .announce (.exact (intervalNs pm.cfg.announceLog)), .sendGeneral (encode m2) false] ∧
@@ -200,7 +194,14 @@ theorem parent_change_in_next_announce (ps ps' pm pm' : Port) (s s1 : InstState)
   split at h1
   · cases h1
   · rename_i s2 loop hu
-    have := (parent_announce_datasets ps s s2 m ⟨m.header, ab⟩ loop hs hp hu).1
+    have : viewOf s2 = parentView ⟨m.header, ab⟩ := by
+      rcases announceUpdate_cases ps s s2 m ⟨m.header, ab⟩ loop hu with ⟨hn, _⟩ | ⟨_, _, hl, _⟩ | ⟨_, _, _, _, s3, hap, hst⟩
+      · exact absurd ⟨hs, hp⟩ hn
+      · rw [hnl] at hl; cases hl
+      · obtain ⟨a1, _⟩ := applyParent_view s s3 _ hap
+        rcases storePath_spec s3 s2 _ hst with ⟨_, e⟩ | ⟨t, _, e, _⟩
+        · rw [e]; exact a1
+        · rw [e]; exact a1
     split at h1
     · simp only [Except.ok.injEq, Prod.mk.injEq] at h1; rw [← h1.2.1]; exact this
     · simp only [Except.ok.injEq, Prod.mk.injEq] at h1; rw [← h1.2.1]; exact this
